@@ -41,6 +41,21 @@ def trigger_set(c):
     return None
 
 
+def implicit_trigger(m):
+    """The set of token variants that start an implicit product (None: shape not recognised)."""
+    f = m.tb.fn("::parser::Parser::implicit_multiply")
+    if f is None:
+        return None
+    nodep = ("param", T.param_ids(f)[1][1])
+    evs_, tail = m.summary("implicit_multiply")
+    cond = None
+    if len(evs_) == 1 and evs_[0][0] == "cond" and tail == ("ok", nodep) and evs_[0][3] == ([], ("val", ("unit",))):
+        cond = evs_[0][1]
+    elif not evs_ and tail[0] == "if":
+        cond = tail[1]
+    return trigger_set(cond) if cond is not None else None
+
+
 def main(tier):
     run, F, models = setup(PID, tier, LEVEL)
     run.trusted = ["precedence-climbing schema (C04)"]
@@ -114,6 +129,25 @@ def main(tier):
             want.add(("bin", m.tokvar("!")))
         run.ob(sites == want, "call-sites|%s" % ev, "C12 the implicit-product hook follows exactly: a number, a bracketed group, a function call, a factorial",
                where(m, "::parser::Parser::parse_number"), "hook after %s, expected after %s" % (sorted(map(str, sites)), sorted(map(str, want))), sample={"evaluator": ev, "hook_sites": sorted(map(str, sites))})
+        # ... and nowhere else: the bracket helper and the hook never run in the *middle* of an arm (a function argument parsed by the
+        # bracket helper would swallow the factor that follows the call: f(x)(y) read as f(x*(y)))
+        inner = []
+
+        def scan_events(x, tv):
+            if isinstance(x, list):
+                for it in x:
+                    if isinstance(it, tuple) and it and it[0] in ("encl", "impl"):
+                        inner.append((tv, it[0]))
+                    scan_events(it, tv)
+            elif isinstance(x, tuple):
+                if x and x[0] == "tailcall":
+                    return
+                for it in x:
+                    scan_events(it, tv)
+        for tv, (pat, summ) in list(pr.items()) + list(bn.items()):
+            scan_events(summ, tv)
+        run.ob(not inner, "hook-inside|%s" % ev, "C12 the bracket helper / implicit-product hook is only ever an arm's final step (it never parses a function argument or an operand in the middle of an arm)",
+               where(m, "::parser::Parser::parse_number"), "used inside the arm of %s" % sorted(set(map(str, inner)))[:6], sample={"evaluator": ev, "inner_uses": 0})
         # arms that must not hook: constants, @, superscript, °, rad  (they end with Ok(..) after consuming one token)
         for s_ in ("pi", "e", "@"):
             if s_ in ("pi", "e") and ev not in spec.CONSTANTS[s_]:
